@@ -14,8 +14,8 @@ CLAIMED = {
 
  'C03': ('stream templates with free bytes decoded by both real connections and compared with an independent reference decoder of the response grammar on every path (plus the field-name alphabet lemma)', '4 C03'),
  'C02': ('one symbolic stream run under every two-way split, byte-wise and further segmentations on both connections, results compared pairwise by z3; prefix stability of the line and greeting grammars', '4 C02'),
- 'C09': ('free byte strings and magnitude templates through both connections: no feasible path panics, reads are bounded, malformed input yields InvalidMessage', '4 C09'),
- 'C10': ('every cut position of the stream templates followed by EOF on both connections: clean close iff response boundary, else UnexpectedEof, complete responses delivered first', '4 C10'),
+ 'C09': ('free byte strings, magnitude templates and pipelined well-formed data through both connections: no feasible path panics (dev profile: debug assertions and overflow checks on), also when receive is called again after an error; reads are bounded, malformed input yields InvalidMessage', '4 C09'),
+ 'C10': ('every cut position of the stream templates followed by EOF on both connections under several read segmentations: clean close iff response boundary, else UnexpectedEof, complete responses delivered first; a read failing once with ErrorKind::Interrupted surfaces as that I/O error, never as an end of stream', '4 C10'),
  'C18': ('free first lines under several segmentations through both connect functions against the greeting grammar (connected / InvalidMessage / UnexpectedEof, version verbatim); the password exchange through the real do_connect coroutine against a simulated server (OK / ACK / close / garbage)', '4 C18'),
 
  'C07': ('command names of every stated length and add_argument sequences with a fresh-bytes renderer: acceptance, rollback and one-line framing decided by z3 on every path', '4 C07'),
@@ -25,7 +25,7 @@ CLAIMED = {
  'C11': ('filter trees of every shape within the bounds, rendered inside a real find command and decoded by ports of MPD\'s tokenizer and filter parser; equality with the mirror tree decided by z3 on every path', '4 C11'),
  'C19': ('frames with symbolic keys under symbolic operation sequences and iteration patterns, responses under symbolic next/next_back/nth patterns, each observation compared with a list model on every path', '4 C19'),
  'C12': ('every typed response conversion and result accessor on frames with symbolic field names, order, presence and values (numbers of any magnitude, any f64); a feasible path reaching a panic is the counterexample', '4 C12'),
- 'C14': ('abstract song listings under symbolic entry/attribute choices encoded into frames and decoded by the real listing decoders; the result is compared with a reference decoder on every path', '4 C14'),
+ 'C14': ('abstract song listings under symbolic entry/attribute choices encoded into frames and decoded by the real listing decoders; the result is compared with a reference decoder on every path; plus a listing decoded end to end as second/third reply of a real connection that interned the same field names in other letter cases', '4 C14'),
  'C16': ('abstract status/stats/count/list/playlist/sticker/channel/tagtype/update/replay-gain replies under symbolic presence, domains and order; every member compared with the value sent on every path', '4 C16'),
  'C06': ('every feasible path of Command::build/add_argument/escape_argument/CommandList::render for all argument byte vectors within '
          'the bounds is decided by z3 against a port of MPD\'s tokenizer; known escaping defects are excluded by class and re-confirmed', '4 C06'),
